@@ -111,9 +111,18 @@ def one_shape(col, n, edges, rng, variants, sample=False):
         col.counters["cp_shapes_with_a_block_written_as_inner_dag"] += 1
     rp = {"kind": "cp_case", "n": n, "edges": edges, "prios": prios, "variants": variants, "source": S.render(sp), "nest": sp.get("nest")}
     d, _env, _plain = S.build_tawazi(sp)
+    # the SAME describing function decorated a second time, with the same options: an object of its own, untouched by what is done
+    # to the first one (looked at again at the end of the case)
+    twin = None
+    if not sp.get("nest") and rng.random() < 0.3:
+        from tawazi import dag as _dag
+
+        twin = _dag(_env[sp["name"]], max_concurrency=sp.get("mc", 1), is_async=bool(sp.get("is_async", False)))
+        col.counters["cp_describing_functions_decorated_twice"] += 1
     ids = S.node_ids(sp)
     g = S.site_graph(sp)
     cp = S.cp_spec(sp)
+    cp_declared = dict(cp)
     col.evaluations += 1
     allset = set(range(n))
     orders = []
@@ -226,6 +235,10 @@ def one_shape(col, n, edges, rng, variants, sample=False):
                                   {"observed": order, "predicted": exp, "failed_first_at": ids[f]}, rp)
             elif r2[0] != "ok" and not isinstance(r2[1], TawaziUsageError):
                 col.counters["cp_executor_retry_raised_other"] += 1
+    if twin is not None:
+        # the second decoration of the same function: still the DECLARED priorities, whatever happened to the first object
+        check_table(col, "second_decoration_of_the_same_function", dict(twin.graph_ids.compound_priority), cp_declared, ids, allset, rp)
+        run_order(col, "second_decoration_of_the_same_function", twin, ids, g, cp_declared, allset, rp)
     if "debug" in variants and n >= 2:
         debug_variant(col, n, edges, prios, rng, rp)
     h = "%d:%s:%s" % (n, sorted(edges), prios)
